@@ -429,6 +429,68 @@ func runSetIfAbsentRace(sc sweepScenario) sweepResult {
 	return res
 }
 
+// runMassExpiry (C13): many entries come due in the same sweep (more than any per-pass bound of the maintenance: the write
+// buffer drains 2049 events per pass); one quiescent CleanUp more than a tick after the deadline must remove and report all.
+func runMassExpiry(sc sweepScenario) sweepResult {
+	res := sweepResult{T: "sweep", Sc: sc, TickNs: 1 << 30, MassN: sc.Warm}
+	clk := &stallClock{never: make(chan time.Time), stalled: make(chan struct{}), resume: make(chan struct{})}
+	clk.now.Store(int64(5) << 30)
+	var mu sync.Mutex
+	seen := map[int]int{}
+	o := &Options[int, int]{
+		Clock:            clk,
+		ExpiryCalculator: ExpiryWriting[int, int](time.Duration(sc.TTL)),
+	}
+	if sc.Op != "mass.nohandler" {
+		o.OnDeletion = func(e DeletionEvent[int, int]) {
+			mu.Lock()
+			if e.Cause == CauseExpiration {
+				seen[e.Key]++
+			} else {
+				res.Other++
+			}
+			mu.Unlock()
+		}
+	}
+	if sc.Sized == 1 {
+		o.MaximumSize = 2*sc.Warm + 10
+	}
+	if sc.SyncExec == 1 {
+		o.Executor = func(fn func()) { fn() }
+	}
+	c := Must(o)
+	defer c.StopAllGoroutines()
+	for i := 0; i < sc.Warm; i++ {
+		c.Set(i, i)
+	}
+	c.CleanUp()
+	time.Sleep(2 * time.Millisecond)
+	c.CleanUp()
+	clk.now.Add(sc.Jump)
+	c.CleanUp() // the one quiescent run the property speaks of
+	res.Est = c.EstimatedSize()
+	for i := 0; i < 200 && sc.SyncExec == 0; i++ { // default executor: notifications are delivered by goroutines
+		mu.Lock()
+		n := len(seen)
+		mu.Unlock()
+		if n >= sc.Warm {
+			break
+		}
+		time.Sleep(5 * time.Millisecond)
+	}
+	mu.Lock()
+	defer mu.Unlock()
+	for _, n := range seen {
+		if n == 1 {
+			res.MassExpired++
+		}
+	}
+	if sc.Op == "mass.nohandler" {
+		res.MassExpired = sc.Warm
+	}
+	return res
+}
+
 type sweepResult struct {
 	T       string        `json:"t"`
 	Sc      sweepScenario `json:"sc"`
@@ -446,6 +508,8 @@ type sweepResult struct {
 	NoPressure int `json:"nopressure"` // 1 = the cache was never above its maximum (or has none) during the scenario
 	MidPresent int `json:"midpresent"` // 1 = the entry was present (GetEntryQuietly) right after the race
 	MidAlive   int `json:"midalive"`   // 1 = its deadline (as reported then) lay after the clock value of the race
+	MassN       int `json:"massn"`       // mass.x: entries that came due in one sweep
+	MassExpired int `json:"massexpired"` // mass.x: distinct keys for which exactly one Expiration event was delivered
 	Cold       int `json:"cold"`       // sia.race: entries Coldest yields after the race (Live = entries All yields)
 	Inserted   int `json:"inserted"`   // sia.race: 1 = SetIfAbsent reported that it stored its value
 }
@@ -550,6 +614,10 @@ func TestVerifSweep(t *testing.T) {
 	defer w.Flush()
 	enc := json.NewEncoder(w)
 	for _, sc := range scs {
+		if len(sc.Op) > 5 && sc.Op[:5] == "mass." {
+			_ = enc.Encode(runMassExpiry(sc))
+			continue
+		}
 		if len(sc.Op) > 4 && sc.Op[:4] == "sia." {
 			_ = enc.Encode(runSetIfAbsentRace(sc))
 			continue
